@@ -33,7 +33,7 @@ pub static PROP: Prop = Prop {
         "local (socket) timestamps are realistic (2020-2033); extreme values only appear inside received datagrams",
     ],
     profiles: Profiles::Both,
-    cases: |t| t.pick(12_000, 600_000),
+    cases: |t| t.pick(300_000, 4_000_000),
     budget_s: |t| t.pick(30, 300),
     run,
     min_nontrivial: 100,
@@ -422,7 +422,18 @@ fn run(c: &mut Case) {
             move |d| sim3.sleep(d),
             move || SeededRng(jitter.fork()),
         );
-        c.no_panic("csptp-source-run", script_json, || sim.block_on(fut, 200_000))
+        let log3 = log.clone();
+        let panic_detail = move || {
+            let mut j = script_json();
+            let l = log3.lock().map(|l| l.clone()).unwrap_or_default();
+            let last = l.iter().rev().find_map(|e| if let Ev::Delivered { bytes, has_ts, class } = e { Some(json!({"datagram": hex(bytes), "class": class, "rx_timestamp_present": has_ts})) } else { None });
+            let req = l.iter().rev().find_map(|e| if let Ev::SendOk { bytes } = e { Some(hex(bytes)) } else { None });
+            j["last_datagram_delivered_before_the_panic"] = last.unwrap_or(json!(null));
+            j["request_of_that_round"] = json!(req);
+            j["measurements_handed_over_before_the_panic"] = json!(l.iter().filter(|e| matches!(e, Ev::Measurement { .. })).count());
+            j
+        };
+        c.no_panic("csptp-source-run", panic_detail, || sim.block_on(fut, 200_000))
     };
     match outcome {
         None => {}                  // panic: recorded as a violation; the log up to the panic is still judged
